@@ -55,11 +55,16 @@ type explorer struct {
 	cache                bool
 	stop                 bool
 	nth                  int64
+	gen0                 int  // unlockGen when this exploration (re)started
+	flipped              bool // the set of release points grew: start over with it
 }
 
 type replayData struct {
 	Name    string `json:"name"`
 	Choices []int  `json:"choices"`
+	// the release points in force when the choices were recorded (sched.go, "Release points")
+	UnlockAll   bool     `json:"unlock_all,omitempty"`
+	UnlockSites []string `json:"unlock_sites,omitempty"`
 }
 
 // EngineError reports nondeterminism of the engine / harness (never a property violation).
@@ -77,6 +82,10 @@ func Explore(r *enum.R, cfg Config) Stats {
 	if r.Replaying() {
 		var rd replayData
 		if d := r.ReplayData(); d != nil && json.Unmarshal(d, &rd) == nil && rd.Name == cfg.Name {
+			allUnlocks = rd.UnlockAll
+			if rd.UnlockAll || len(rd.UnlockSites) > 0 {
+				trySeen, replaySites = true, append([]string{}, rd.UnlockSites...)
+			}
 			x := Run(rd.Choices, cfg.MaxSteps, true, cfg.Body)
 			fmt.Printf("replay of %s, choices %v\n", cfg.Name, rd.Choices)
 			for _, l := range x.Trace {
@@ -97,6 +106,8 @@ func Explore(r *enum.R, cfg Config) Stats {
 		}
 	}
 	ladder = append(ladder, b{cfg.MaxP, cfg.MaxE})
+restart:
+	e.gen0 = unlockGen
 	for i, c := range ladder {
 		e.maxP, e.maxE = c.p, c.e
 		e.seen = map[[2]uint64][][2]int8{}
@@ -108,6 +119,15 @@ func Explore(r *enum.R, cfg Config) Stats {
 			e.st.Deadlocks, e.st.Horizon, e.st.Panics, e.st.Violating = 0, 0, 0, 0
 		}
 		e.explore(nil)
+		if e.flipped {
+			// the schedules explored so far lacked some release points; all of them are legal, none is
+			// kept in the counters: the space is enumerated again from the start, with the larger set
+			e.flipped, e.stop = false, false
+			e.st = Stats{Outcomes: map[string]int64{}}
+			e.idleExecs, e.idleFires = 0, 0
+			r.Count("restarts_after_release_points_grew", 1)
+			goto restart
+		}
 		if e.stop {
 			break
 		}
@@ -192,7 +212,7 @@ func (e *explorer) judge(x *Exec, replaying bool) bool {
 			trace = append([]string{"..."}, trace[len(trace)-400:]...)
 		}
 		e.r.Fail(key, map[string]any{"scenario": e.cfg.Name, "preemptions": p, "env_deviations": en, "choices": choices, "blocked": tr.Blocked, "trace": trace},
-			replayData{e.cfg.Name, choices}, "%s [%s, %d preemption(s), %d environment deviation(s), %d steps]", f.Msg, e.cfg.Name, p, en, x.steps)
+			replayData{e.cfg.Name, choices, allUnlocks, unlockSiteList()}, "%s [%s, %d preemption(s), %d environment deviation(s), %d steps]", f.Msg, e.cfg.Name, p, en, x.steps)
 	}
 	return true
 }
@@ -268,8 +288,12 @@ func (e *explorer) explore(prefix []int) {
 		e.stop = true
 		return
 	}
-	enum.Guard(e.cfg.KeyPrefix+"crash", map[string]any{"scenario": e.cfg.Name, "choices": prefix}, replayData{e.cfg.Name, prefix})
+	enum.Guard(e.cfg.KeyPrefix+"crash", map[string]any{"scenario": e.cfg.Name, "choices": prefix}, replayData{e.cfg.Name, prefix, allUnlocks, unlockSiteList()})
 	x := Run(prefix, e.cfg.MaxSteps, false, e.cfg.Body)
+	if unlockGen != e.gen0 {
+		e.flipped, e.stop = true, true
+		return
+	}
 	e.st.Execs++
 	e.st.Steps += int64(x.steps)
 	e.nth++
